@@ -51,7 +51,7 @@ def default_args(fn: ast.FunctionDef) -> Dict[str, Any]:
 
 
 def run_indicator(repo: Repo, rel: str, fn: ast.FunctionDef, n: int, sequential: bool, warmup: int = 240, offset: int = 0,
-                  overrides: Dict[str, Any] = None, max_steps: int = 6_000_000):
+                  overrides: Dict[str, Any] = None, max_steps: int = 6_000_000, one_d: bool = False):
     """Returns ('ok', value) | ('undecided', reason) | ('raises', what)."""
     it = Indic(repo, warmup=warmup, max_steps=max_steps)
     mod = repo.module(rel)
@@ -60,7 +60,9 @@ def run_indicator(repo: Repo, rel: str, fn: ast.FunctionDef, n: int, sequential:
     args = []
     if not params:
         return ("undecided", "no parameters")
-    args.append(candles(n, "c", offset))
+    cd = candles(n, "c", offset)
+    # one_d: a plain 1-D series (the close column) instead of candles - several averages accept both
+    args.append(NA([row[2] for row in cd.data], 1) if one_d else cd)
     # second candle-like inputs (benchmark candles etc.)
     for p in params[1:]:
         if "candles" in p:
